@@ -168,12 +168,6 @@ class Runner:
         r = sh(["goto-cc", "-o", gb, "--function", ob.func] + objs)
         if r.returncode != 0:
             return None, "link failed:\n" + r.stdout[-3000:]
-        # drop unreachable functions now, so that loop listings (unwindset) and CBMC see the
-        # same set of functions
-        gbd = os.path.join(d, "harness_d.gb")
-        r = sh(["goto-instrument", "--drop-unused-functions", gb, gbd])
-        if r.returncode == 0 and os.path.exists(gbd):
-            gb = gbd
         if ob.replace_calls:
             gb3 = os.path.join(d, "harness_rc.gb")
             cmd = ["goto-instrument"]
@@ -183,6 +177,12 @@ class Runner:
             if r.returncode != 0:
                 return None, "replace-calls failed:\n" + r.stdout[-3000:]
             gb = gb3
+        # drop unreachable functions now, so that loop listings (unwindset) and CBMC see the
+        # same set of functions
+        gbd = os.path.join(d, "harness_d.gb")
+        r = sh(["goto-instrument", "--drop-unused-functions", gb, gbd])
+        if r.returncode == 0 and os.path.exists(gbd):
+            gb = gbd
         if ob.fp_restrict:
             gb2 = os.path.join(d, "harness_fp.gb")
             cmd = ["goto-instrument"]
